@@ -379,7 +379,13 @@ func (g *gen) mkStruct(i int) *Decl {
 		// a tag on the embedded struct: without a name its fields are still promoted, with a name
 		// (or "-") it is a regular field
 		if g.chance(0.5) {
-			ef.Tag = pick(g.rng, []string{`json:",omitempty"`, `json:",inline"`, `json:""`, `json:"emb_` + strings.ToLower(emb.Name) + `"`, `json:"-"`, `json:"emb_` + strings.ToLower(emb.Name) + `,omitempty"`})
+			tags := []string{`json:",omitempty"`, `json:",inline"`, `json:""`}
+			// a NAME on an embedded struct of an unexported type is a recorded finding (C09: encoding/json
+			// writes the key, the analysis drops the unexported field): only exported types get one
+			if emb.Name[0] >= 'A' && emb.Name[0] <= 'Z' {
+				tags = append(tags, `json:"emb_`+strings.ToLower(emb.Name)+`"`, `json:"-"`, `json:"emb_`+strings.ToLower(emb.Name)+`,omitempty"`)
+			}
+			ef.Tag = pick(g.rng, tags)
 			g.c.AddFeat("embedded-struct-tagged")
 		}
 		d.Fields = append(d.Fields, ef)
